@@ -799,6 +799,67 @@ def rule_intrinsic_modifiers(chk):
 
 
 
+def rule_global_type(chk):
+    """parse_globaltype read as a table over the storage-class keywords a global can be written with (none, extern,
+    static, groupshared, each with and without const, repeated, and conflicting pairs): the storage class is the one
+    written (extern when none is), conflicting classes are refused, and the type of an extern global - written with the
+    keyword or without - is const (that is what makes assignments to it, and passing it as out / inout, ill-typed);
+    static and groupshared globals keep the type as written."""
+    import interp as I
+    f = chk.facts
+    fn = f.fn("parse_globaltype", "rssl_typer")
+    if not fn:
+        chk.note("C03.globals: parse_globaltype not found; not decided")
+        return
+    ok = lambda v: I.Enum("Result", "Ok", {"0": v})
+    loc = lambda v: I.Enum("Located", None, {"node": v, "location": I.Opaque("location")})
+
+    def deref(v):
+        return v.get() if isinstance(v, I.Ref) else v
+    PLAIN, CONST = 3, 7
+    ext = {"parse_type_for_usage": lambda a: ok(I.Enum("TypeId", None, {"0": CONST if any(m.fields["node"].variant == "Const" for m in deref(a[0]).fields["modifiers"].fields["modifiers"]) else PLAIN})),
+           "TypeRegistry::is_void": lambda a: False, "TypeRegistry::make_const": lambda a: I.Enum("TypeId", None, {"0": CONST})}
+    cases = {"no-class": [], "extern": ["Extern"], "static": ["Static"], "groupshared": ["GroupShared"], "const": ["Const"], "extern-const": ["Extern", "Const"], "const-extern": ["Const", "Extern"],
+             "static-const": ["Static", "Const"], "groupshared-const": ["GroupShared", "Const"], "extern-twice": ["Extern", "Extern"], "static-twice": ["Static", "Static"],
+             "extern-static": ["Extern", "Static"], "static-extern": ["Static", "Extern"], "static-groupshared": ["Static", "GroupShared"], "precise-extern": ["Precise", "Extern"]}
+    n = 0
+    for name, mods in cases.items():
+        ty = I.Enum("Type", None, {"layout": I.Opaque("layout"), "modifiers": I.Enum("TypeModifierSet", None, {"modifiers": [loc(I.Enum("TypeModifier", m)) for m in mods]}), "location": I.Opaque("location")})
+        ctx = I.Enum("Context", None, {"module": I.Enum("Module", None, {"type_registry": I.Opaque("type registry")})})
+        key = "C03.globals/type/" + name
+        try:
+            r = I.Interp(f, max_depth=6, extern=ext).apply(fn, [ty, ctx])
+        except I.Unknown as e:
+            if "panicking" in str(e):
+                chk.ob(key, False, "parse_globaltype aborts on a global written `%s T g;` (%s)" % (" ".join(m.lower() for m in mods), str(e)[:60]), where(fn))
+            else:
+                chk.unreadable(key, "parse_globaltype on a model global type", str(e)[:100], where(fn))
+            continue
+        n += 1
+        classes = [m for m in mods if m in ("Extern", "Static", "GroupShared")]
+        written = "`%s T g;`" % " ".join(m.lower() for m in mods) if mods else "`T g;`"
+        if len(set(classes)) > 1:
+            okk = isinstance(r, I.Enum) and r.variant == "Err"
+            chk.ob(key, okk, "conflicting storage classes are refused" if okk else "a global written %s with two storage classes is accepted" % written, where(fn), sample={"case": name})
+            continue
+        want_storage = classes[0] if classes else "Extern"
+        want_const = want_storage == "Extern" or "Const" in mods
+        if not (isinstance(r, I.Enum) and r.variant == "Ok" and isinstance(r.fields.get("0"), tuple) and len(r.fields["0"]) == 2):
+            chk.ob(key, False, "a global written %s is refused (%r)" % (written, r), where(fn), sample={"case": name})
+            continue
+        tid, st = r.fields["0"]
+        got_const = isinstance(tid, I.Enum) and tid.fields.get("0") == CONST
+        got_storage = getattr(st, "variant", None)
+        bad = None
+        if got_storage != want_storage:
+            bad = "a global written %s gets storage class %s, must be %s" % (written, got_storage, want_storage)
+        elif got_const != want_const:
+            bad = ("a global written %s is extern, and extern globals are read-only: its type must be const, it is not - assignments to it and passing it as out / inout are accepted" % written) if want_const \
+                else "a global written %s gets a const type although nothing makes it read-only" % written
+        chk.ob(key, bad is None, bad or "%s -> %s, %s" % (written, want_storage, "const" if want_const else "type as written"), where(fn), sample={"case": name})
+    chk.floor("C03.floor/global-types", n, 12, "global type spellings evaluated", where(fn))
+
+
 def rule_param_variables(chk):
     """parse_function_body read on a model function: for every parameter (plain, const, array-of-const; in / out / inout;
     precise) the local variable that stands for it in the body is registered, and entered into the scope, with the type
@@ -875,6 +936,7 @@ def run(chk):
     rule_ctor_eval(chk)
     rule_intrinsic_modifiers(chk)
     rule_param_variables(chk)
+    rule_global_type(chk)
     if not rb:
         rule_assign(chk)
     if not ru:
